@@ -305,6 +305,22 @@ def pick(v, j):
     return v[j] if v.shape else v[()]
 
 
+def mixed_list(e):
+    """a list whose items have different static types (a float32 next to an upcast item): item(list, i) is typed by the package from the list as a whole while
+    the evaluators of this harness follow NumPy's promotion of the selected item - such a graph is a mixed-precision graph although its symbols are not"""
+    for n in graph.walk(e):
+        if n.kind == "list":
+            ts = set()
+            for it in n.operands:
+                try:
+                    ts.add(str(it.get_type()))
+                except Exception:
+                    pass
+            if len(ts) > 1:
+                return True
+    return False
+
+
 def wider_than_double(e):
     for n in graph.walk(e):
         try:
@@ -643,8 +659,8 @@ def task_programs(params, rec):
         if step_flagged:
             rec.count("programs:attributed-to-step-violation")
             continue
-        if judge.type_changed or isinstance(ftype, (list, tuple)) and len({str(s_.operands[1]) for s_ in g.syms}) > 1:
-            # a rule changed the static precision of a node (mixed-precision graph): every such step is judged by the step monitor
+        if judge.type_changed or isinstance(ftype, (list, tuple)) and len({str(s_.operands[1]) for s_ in g.syms}) > 1 or mixed_list(e):
+            # a rule changed the static precision of a node, or the graph holds more than one precision (symbols, or a list of differently typed items): every step is judged by the step monitor
             # (KF-C04-mixed-precision-retyping); the whole-program float comparison would only repeat it
             rec.count("programs:mixed-precision-judged-by-the-step-monitor-only")
             continue
